@@ -1,10 +1,11 @@
 #!/bin/bash
 # confirms each seeded change: (a) suite passes with it, (b) demo fails with it, (c) demo passes without it
 export GOFLAGS=-mod=mod GOPROXY=off GOSUMDB=off GOTOOLCHAIN=local GOLOG_LOG_LEVEL=fatal
-WT=/tmp/wt-confirm8
+WT=${WT:-/tmp/wt-confirm9}   # usage: WT=<scratch worktree> confirm.sh [<dir>...]   (several shards may run in parallel)
 cd /repo && git worktree add -q $WT HEAD 2>/dev/null
 cd $WT || exit 1
-for d in /tmp/seeded-out/C*/[IJ]; do
+DIRS=("$@"); [ ${#DIRS[@]} -eq 0 ] && DIRS=(/tmp/seeded-out/C*/[KL])
+for d in "${DIRS[@]}"; do
   id=$(echo $d | sed 's#/tmp/seeded-out/##; s#/#-#')
   [ -f $d/patch.diff ] || continue
   demo=$(ls $d/*_test.go 2>/dev/null | head -1)
@@ -16,14 +17,14 @@ for d in /tmp/seeded-out/C*/[IJ]; do
   git checkout -q -- . ; git clean -fdq
   cp $demo $dir/zz_seeded_demo_test.go
   # (c) demo on the clean tree
-  timeout 600 go test $tags -vet=off -count=1 -timeout 500s -run "^($names)\$" ./$dir > /tmp/confirm.c.log 2>&1; c=$?
+  timeout 600 go test $tags -vet=off -count=1 -timeout 500s -run "^($names)\$" ./$dir > $WT.log.c.log 2>&1; c=$?
   # apply
   git apply $d/patch.diff || { echo "$id APPLYFAIL"; continue; }
-  timeout 900 go test $tags -vet=off -count=1 -timeout 800s -run "^($names)\$" ./$dir > /tmp/confirm.b.log 2>&1; b=$?
+  timeout 900 go test $tags -vet=off -count=1 -timeout 800s -run "^($names)\$" ./$dir > $WT.log.b.log 2>&1; b=$?
   rm -f $dir/zz_seeded_demo_test.go
   # (a) existing suite with the change (retry once: TestChanClosing flake)
-  timeout 300 go test -vet=off -count=1 -timeout 200s ./... > /tmp/confirm.a.log 2>&1; a=$?
-  if [ $a -ne 0 ]; then timeout 300 go test -vet=off -count=1 -timeout 200s ./... > /tmp/confirm.a.log 2>&1; a=$?; fi
+  timeout 300 go test -vet=off -count=1 -timeout 200s ./... > $WT.log.a.log 2>&1; a=$?
+  if [ $a -ne 0 ]; then timeout 300 go test -vet=off -count=1 -timeout 200s ./... > $WT.log.a.log 2>&1; a=$?; fi
   echo "$id suite_with_change=$a demo_with_change=$b demo_clean=$c pkg=$dir tags='$tags' tests=$names"
   git checkout -q -- . ; git clean -fdq
 done
